@@ -277,13 +277,27 @@ fn apply_dup(dc: &DupCase, req: &mut WireRequest, signed: bool) {
                 let v = ["X-Amz-Algorithm=AWS4-HMAC-SHA256", "X-Amz-Algorithm=", "X-Amz-Algorithm", "X-Amz-Algorithm=AWS4-HMAC-SHA512", "X-Amz-Algorithm=aws4&X-Amz-Algorithm=AWS4-HMAC-SHA256"][(dc.decoy_delta_s.unsigned_abs() % 5) as usize];
                 insert_query(req, p.cfg.fold, dc.in_body, v, dc.decoy_first);
             } else {
-                insert_header(
-                    req,
-                    "Authorization",
-                    &format!("AWS4-HMAC-SHA256 Credential={}, SignedHeaders=host, Signature={}", decoy_cred, "d".repeat(64)),
-                    dc.decoy_first,
-                    "host",
-                );
+                // the header carrier's marker is ANY Authorization header: a SigV4 one, one of another scheme (as a proxy
+                // or browser would add), an empty one, or another scheme FIRST and a SigV4 one for another identity after it
+                let aws4 = format!("AWS4-HMAC-SHA256 Credential={}, SignedHeaders=host, Signature={}", decoy_cred, "d".repeat(64));
+                match dc.decoy_delta_s.unsigned_abs() % 6 {
+                    0 | 1 => insert_header(req, "Authorization", &aws4, dc.decoy_first, "host"),
+                    2 => insert_header(req, "Authorization", "Basic dXNlcjpwYXNz", dc.decoy_first, "host"),
+                    3 => insert_header(req, "Authorization", "Bearer abc.def", dc.decoy_first, "host"),
+                    4 => insert_header(req, "Authorization", "", dc.decoy_first, "host"),
+                    _ => {
+                        insert_header(req, "Authorization", &aws4, dc.decoy_first, "host");
+                        insert_header(req, "Authorization", "Basic dXNlcjpwYXNz", dc.decoy_first, "host");
+                        if !dc.decoy_first {
+                            // both insertions put the Basic header first; in this order the SigV4 one is moved in front of it
+                            if let Some(p) = req.headers.iter().position(|(n, v)| n.eq_ignore_ascii_case("authorization") && v.0.starts_with(b"AWS4")) {
+                                if p > 0 && req.headers[p - 1].0.eq_ignore_ascii_case("authorization") {
+                                    req.headers.swap(p - 1, p);
+                                }
+                            }
+                        }
+                    }
+                }
             }
         }
     }
